@@ -361,10 +361,12 @@ impl BuiltInFunction {
                 };
 
                 {
+                    // copy first: the argument keeps its elements, and `a.join(a)` must not
+                    // borrow the same cell mutably twice
+                    let added: Vec<Primitive> = Vec::clone(v_add.0.borrow().as_ref());
                     let mut v_original = v_original_shared.0.borrow_mut();
-                    let mut v_add = v_add.0.borrow_mut();
 
-                    v_original.append(v_add.as_mut());
+                    v_original.extend(added);
                 }
 
                 Ok((Some(Primitive::Vector(v_original_shared.clone())), None))
